@@ -245,3 +245,122 @@ Proof.
   unfold bytes_okb, bytes_ok. intros H. apply Forall_forall. intros x Hx.
   rewrite forallb_forall in H. specialize (H x Hx). now apply N.ltb_lt in H.
 Qed.
+
+(* ------------------------------------------------------------------------------------ *)
+(* round trip: what ScyllaDB sends for (a, b, replicas) is decoded to exactly the value-level *)
+(* payload check of (a, b, replicas)                                                      *)
+(* ------------------------------------------------------------------------------------ *)
+From SV Require Import Proofs.Cql_proofs.
+Open Scope Z_scope.
+
+Definition raw_wf (raw : list (N * Z)) : Prop :=
+  Forall (fun hs => (fst hs < 2 ^ 128)%N /\ in_range 32 (snd hs) = true) raw.
+
+Lemma tuple_field_framed x r : (blen x <= i32_max)%N -> tuple_field (framed x ++ r) = Ok (Some x, r).
+Proof.
+  intros H. unfold tuple_field. destruct (framed x ++ r) as [|y l] eqn:E.
+  - apply (f_equal (@List.length N)) in E. rewrite app_length, framed_length in E. cbn in E. lia.
+  - rewrite <- E, read_cql_framed by exact H. reflexivity.
+Qed.
+
+Lemma i64_in_range z : i64_ok z -> in_range 64 z = true.
+Proof. unfold i64_ok, i64_min, i64_max, in_range. intros H. apply andb_true_iff. split; lia. Qed.
+
+Lemma typed_int_enc k bits z : (0 < k)%nat -> bits = (8 * Z.of_nat k)%Z -> in_range bits z = true ->
+  typed_int k (Some (enc_signed k z)) = Ok z.
+Proof.
+  intros Hk Hb Hr. unfold typed_int, exact_len. rewrite enc_signed_length, Nat.eqb_refl.
+  now rewrite (dec_enc_signed_k k bits z Hk Hb Hr).
+Qed.
+
+Lemma typed_uuid_enc h : (h < 2 ^ 128)%N -> typed_uuid (Some (be_enc 16 h)) = Ok h.
+Proof.
+  intros H. unfold typed_uuid, exact_len. rewrite be_enc_length. cbn [Nat.eqb].
+  rewrite be_dec_enc_small; [reflexivity|]. change (256 ^ N.of_nat 16)%N with (2 ^ 128)%N. exact H.
+Qed.
+
+Lemma small_blen (x : bytes) : (List.length x <= 100)%nat -> (blen x <= i32_max)%N.
+Proof. unfold blen, i32_max. lia. Qed.
+
+Lemma replica_item_enc h s : (h < 2 ^ 128)%N -> in_range 32 s = true ->
+  replica_item (Some (framed (be_enc 16 h) ++ framed (enc_signed 4 s))) = Ok (h, s).
+Proof.
+  intros Hh Hs. unfold replica_item.
+  rewrite tuple_field_framed by (apply small_blen; rewrite be_enc_length; lia). cbn [rbind fst snd].
+  rewrite typed_uuid_enc by exact Hh. cbn [rbind].
+  rewrite <- (app_nil_r (framed (enc_signed 4 s))).
+  rewrite tuple_field_framed by (apply small_blen; rewrite enc_signed_length; lia). cbn [rbind fst snd].
+  rewrite (typed_int_enc 4 32) by (lia || assumption). reflexivity.
+Qed.
+
+Lemma enc_replica_length hs : List.length (enc_replica hs) = 32%nat.
+Proof.
+  unfold enc_replica. rewrite framed_length, app_length, !framed_length, be_enc_length, enc_signed_length. reflexivity.
+Qed.
+
+Lemma flat_enc_length raw : List.length (flat_map enc_replica raw) = (32 * List.length raw)%nat.
+Proof.
+  induction raw as [|hs raw IH]; [reflexivity|]. cbn [flat_map List.length].
+  rewrite app_length, enc_replica_length, IH. lia.
+Qed.
+
+Lemma parse_items_enc raw : forall fuel rest,
+  raw_wf raw -> (List.length raw <= fuel)%nat ->
+  parse_items fuel (N.of_nat (List.length raw)) (flat_map enc_replica raw ++ rest) =
+  match conv_shards raw with Some r => I_Ok r | None => I_ShardNum end.
+Proof.
+  induction raw as [|[h s] raw IH]; intros fuel rest Hwf Hfuel.
+  - destruct fuel; reflexivity.
+  - inversion Hwf as [|? ? [Hh Hs] Hwf']; subst. cbn [fst snd] in Hh, Hs.
+    destruct fuel as [|fuel]; [cbn in Hfuel; lia|].
+    cbn [parse_items List.length flat_map conv_shards].
+    destruct (N.eqb_spec (N.of_nat (S (List.length raw))) 0); [lia|].
+    unfold enc_replica at 1. cbn [fst snd]. rewrite <- app_assoc.
+    rewrite read_cql_framed.
+    2:{ apply small_blen. rewrite app_length, !framed_length, be_enc_length, enc_signed_length. lia. }
+    rewrite replica_item_enc by assumption.
+    destruct (s <? 0)%Z; [reflexivity|].
+    replace (N.of_nat (S (List.length raw)) - 1)%N with (N.of_nat (List.length raw)) by lia.
+    rewrite IH by (assumption || (cbn in Hfuel; lia)).
+    now destruct (conv_shards raw).
+Qed.
+
+(* C15_payload_roundtrip *)
+Lemma parse_enc_payload a b raw :
+  i64_ok a -> i64_ok b -> raw_wf raw -> (N.of_nat (List.length raw) <= 60000000)%N ->
+  parse_payload (enc_payload a b raw) =
+  match payload_check a b raw with
+  | Ok (f, l, r) => P_Ok f l r
+  | Err WrongTokenRange => P_WrongTokenRange
+  | Err ShardNum => P_ShardNum
+  end.
+Proof.
+  intros Ha Hb Hwf Hlen. unfold parse_payload, enc_payload.
+  assert (Hhdr : parse_header (framed (enc_signed 8 a) ++ framed (enc_signed 8 b) ++
+                     framed (be32 (N.of_nat (List.length raw)) ++ flat_map enc_replica raw)) =
+                 Ok (a, b, (N.of_nat (List.length raw), flat_map enc_replica raw))).
+  { unfold parse_header.
+    rewrite tuple_field_framed by (apply small_blen; rewrite enc_signed_length; lia). cbn [rbind fst snd].
+    rewrite (typed_int_enc 8 64) by (lia || now apply i64_in_range). cbn [rbind].
+    rewrite tuple_field_framed by (apply small_blen; rewrite enc_signed_length; lia). cbn [rbind fst snd].
+    rewrite (typed_int_enc 8 64) by (lia || now apply i64_in_range). cbn [rbind].
+    rewrite <- (app_nil_r (framed (be32 _ ++ _))).
+    rewrite tuple_field_framed.
+    2:{ unfold blen, i32_max. rewrite app_length, be32_length, flat_enc_length. lia. }
+    cbn [rbind fst snd list_open]. unfold read_count.
+    rewrite read_int_be32 by (unfold i32_max; lia).
+    destruct (Z.of_N (N.of_nat (List.length raw)) <? 0) eqn:E; [lia|]. cbn [rbind]. now rewrite N2Z.id. }
+  rewrite Hhdr. unfold payload_check. destruct (b <=? a); [reflexivity|].
+  rewrite <- (app_nil_r (flat_map enc_replica raw)) at 2.
+  rewrite parse_items_enc by (try assumption; rewrite flat_enc_length; lia).
+  now destruct (conv_shards raw).
+Qed.
+
+(* hence a value-level Learn and the byte payload ScyllaDB sends for it act alike *)
+Lemma step_bytes_enc s k a b raw known :
+  i64_ok a -> i64_ok b -> raw_wf raw -> (N.of_nat (List.length raw) <= 60000000)%N ->
+  step_bytes s k (enc_payload a b raw) known = step s (Learn k a b raw known).
+Proof.
+  intros Ha Hb Hwf Hlen. unfold step_bytes. rewrite parse_enc_payload by assumption. cbn [step].
+  destruct (payload_check a b raw) as [[[f l] r]|[|]]; reflexivity.
+Qed.
